@@ -412,7 +412,7 @@ func c13Uniq(c *Ctx, r *Report) {
 						}
 					}
 					if owner == l && (field == "dict" || field == "list") && fn != add {
-						r.check("C13.UNIQ", fmt.Sprintf("%s: writes %s.%s outside add()", fnName(fn), l, field), in.Pos(), false, "the member table is modified without the duplicate check")
+						r.flag("C13.UNIQ", fmt.Sprintf("%s: writes %s.%s outside add()", fnName(fn), l, field), in.Pos(), "the member table is modified without the duplicate check")
 					}
 				}
 			}
